@@ -14,7 +14,7 @@ func init() {
 			"R06.2 a destroy-ready output event is mapped back to its input through the unmap function; R06.3 an output is marked as touched before it is written, and a pending finalizer removal also keeps the output; " +
 			"R06.4 cleanup tears down every owned output that is untouched or already tearing down (the only skips are: not owned, or running ∧ touched); R06.5 finalizer release is decoupled from output destruction in the same cycle: every input scheduled in removeInputFinalizers is released by the trailing loop unless an output iteration withdrew it (so an input whose output is already gone still gets released); " +
 			"R06.6 errors of runtime calls are never dropped and the 'conflict, skip' exits are scoped to the primary output's namespace and type; R06.7 an accumulated error is returned (⇒ restart with backoff and a fresh reconcile, C16) and the backoff is reset only on a clean cycle.",
-		NotCovered: "that the outputs at quiescence are exactly the images of the running inputs (convergence over all histories and timings); user transform functions.",
+		NotCovered:  "that the outputs at quiescence are exactly the images of the running inputs (convergence over all histories and timings); user transform functions.",
 		Assumptions: []string{"the runtime re-triggers the controller on every input/destroy-ready change (C05) and restarts it after an error (C16)"},
 		Run:         runC06,
 	})
